@@ -14,7 +14,10 @@ RULE = ('cases = (host, N, diff_order, lam, banded_solver, user/default weights,
         'iteration (captured at PenalizedSystem.solve) is checked, in exact rational arithmetic inside the Lean driver, against the '
         'DOCUMENTED system built from the specification (W + lam D\'D and the iasls/drpls/aspls variants; Kronecker form in 2-D) with the '
         'weights in force at that step (recorded from the reweighting rule); the captured band arrays are compared with the Lean '
-        'assembly model; converged runs: returned baseline with returned weights; non-trivial = N > d + 1; distinct by canonical tuple')
+        'assembly model; converged runs: returned baseline with returned weights; non-trivial = N > d + 1; distinct by canonical tuple; '
+        'further stages: the sparse 2-D matrix handed to direct_solve against the Lean model asm2d (exact on dyadic inputs); the two band '
+        'arrays / right-hand sides / outputs of every jbcd pass against asmJbcd; the loops with state (Model/LoopS) fed the decisions '
+        'of real runs predict which iterate is returned as weights and which solve as baseline (single loop, brpls, jbcd)')
 ASSUMPTIONS = [
     'the banded solvers (LAPACK solveh_banded/solve_banded, pentapy, SuperLU) are trusted only through the exact normwise backward '
     'error of each output: threshold 1e-11 (measured < 1e-13 on the unchanged tree over the grid; a misplaced band entry gives > 1e-6)',
